@@ -174,6 +174,8 @@ class Seg:
                     raise Unparseable('converter %s(%r): %r' % (cname, argstr, ex))
                 if multi:
                     self.multi = True
+                if any(k in ('min', 'max') and v == 0 for k, v in kw.items()):
+                    cname += '@0'       # coverage label only: the converter has a bound of zero
             self.fields.append((name, conv, cname))
             rx.append('(?P<%s>.+)' % name)
         if self.kind == CX:
